@@ -221,20 +221,19 @@ func NewChargingStation(id string, endpoint *ocppj.Client, client ws.Client) Cha
 	endpoint.SetDialect(ocpp.V2)
 
 	cs := chargingStation{
-		client:          endpoint,
-		responseHandler: make(chan ocpp.Response, 1),
-		errorHandler:    make(chan error, 1),
-		callbacks:       callbackqueue.New(),
+		client:         endpoint,
+		outcomeHandler: make(chan asyncOutcome, 2),
+		callbacks:      callbackqueue.New(),
 	}
 
 	// Callback invoked by dispatcher, whenever a queued request is canceled, due to timeout.
 	endpoint.SetOnRequestCanceled(cs.onRequestTimeout)
 
 	cs.client.SetResponseHandler(func(confirmation ocpp.Response, requestId string) {
-		cs.responseHandler <- confirmation
+		cs.outcomeHandler <- asyncOutcome{response: confirmation}
 	})
 	cs.client.SetErrorHandler(func(err *ocpp.Error, details interface{}) {
-		cs.errorHandler <- err
+		cs.outcomeHandler <- asyncOutcome{err: err}
 	})
 	cs.client.SetRequestHandler(cs.handleIncomingRequest)
 	return &cs
